@@ -24,7 +24,7 @@ func init() {
 		Rule:           "node kinds {integer,float,string,boolean,null,{},{\"k\":1},[],[1],@T} x positions {root, property, array element} x ALL subsets of <= 3 (thorough 4) of the 18 rule names + one unknown name + every duplicated name x parameter variants (ordered/equal/inverted pairs, true/false flags, matching/mismatching types, satisfied/violated by the example) x ALL permutations of the chosen rules, under both key-optionality configurations. Oracles: (1) permutation invariance of Check's verdict (reference-free); (2) the reference applicability predicate written from the statement (three-valued) incl. 'the example obeys its own rules'. Non-trivial = distinct (kind, position, rule multiset) with >= 1 rule; evaluations count compilations.",
 		Run:            run,
 		Replay:         replay,
-		QuickBudget:    80 * time.Second,
+		QuickBudget:    150 * time.Second,
 		ThoroughBudget: 14 * time.Minute,
 		Assumptions: []string{
 			"which error code is reported is not asserted; wrong-kind rule parameters are not generated",
@@ -85,7 +85,7 @@ func pool(kind gen.Kind) []variant {
 		rv("const", "true", "false"),
 		{name: "or", vals: []gen.Rule{gen.RL("or", lits(`"@T"`, `"string"`)...), gen.RL("or", gen.RuleItem{Set: []gen.Rule{gen.R("type", `"integer"`)}}, gen.RuleItem{Set: []gen.Rule{gen.R("type", `"string"`)}})}},
 		{name: "enum", vals: []gen.Rule{gen.RL("enum", lits("1", `"ab"`, "1.5", "true", "null")...), gen.RL("enum", lits("2")...)}},
-		rv("allOf", `"@O"`),
+		{name: "allOf", vals: []gen.Rule{gen.R("allOf", `"@O"`), gen.R("allOf", `"@E"`), gen.RL("allOf", lits(`"@E"`, `"@EA"`)...)}},
 		rv("foo", "1"),
 	}
 }
@@ -108,7 +108,9 @@ var kinds = []kindSpec{
 	{"@T", func() *gen.Node { return gen.Ref("@T") }},
 }
 
-var types = []sc.TypeDecl{{Name: "@T", Body: gen.Int("1")}, {Name: "@O", Body: gen.Obj(gen.P("z", gen.Int("1")))}}
+// @E and @EA are objects that bring nothing to an heir (no property; the second one open to any key)
+var types = []sc.TypeDecl{{Name: "@T", Body: gen.Int("1")}, {Name: "@O", Body: gen.Obj(gen.P("z", gen.Int("1")))},
+	{Name: "@E", Body: gen.Obj()}, {Name: "@EA", Body: gen.Obj().With(gen.R("additionalProperties", `"any"`))}}
 
 func wrap(n *gen.Node, pos wf.Position) *gen.Node {
 	switch pos {
